@@ -303,10 +303,19 @@ type defAt struct {
 // which that definition is chosen): for a phi, each incoming edge with its
 // predecessor block; otherwise the value with b.
 func phiEdgesWithBlocks(v ssa.Value, b *ssa.BasicBlock) []defAt {
+	return phiEdgesWithBlocksSeen(v, b, map[*ssa.Phi]bool{})
+}
+
+// (phis of a loop refer to one another: each is expanded once)
+func phiEdgesWithBlocksSeen(v ssa.Value, b *ssa.BasicBlock, seen map[*ssa.Phi]bool) []defAt {
 	if p, ok := v.(*ssa.Phi); ok {
+		if seen[p] {
+			return nil
+		}
+		seen[p] = true
 		var out []defAt
 		for i, e := range p.Edges {
-			out = append(out, phiEdgesWithBlocks(e, p.Block().Preds[i])...)
+			out = append(out, phiEdgesWithBlocksSeen(e, p.Block().Preds[i], seen)...)
 		}
 		return out
 	}
